@@ -279,7 +279,9 @@ theorem inv_recordPattern {name : String} (cfg : Cfg) (sy : Sym) (e : Node) {s :
     Inv name (recordPattern cfg sy e s) := by
   unfold recordPattern
   simp only
-  split <;> exact inv_core h rfl rfl rfl rfl
+  split
+  · exact inv_core h rfl rfl rfl rfl
+  · split <;> exact inv_core h rfl rfl rfl rfl
 
 /-- `flatten` enters every symbol under its own current name: harmless for `name` -/
 theorem frameOK_flatten {name : String} {s : St} (h : Inv name s) (frames : List Frame) (into : Frame)
